@@ -1361,6 +1361,8 @@ def run(ctx):
     from . import _premises
 
     _premises.deep_copies(ctx)
+    # the root vector is the marginal only if every edit refreshes the path it invalidates from low enough (C06.M1 / M2)
+    _premises.refresh(ctx)
 
 
 # Self-test catalogue: one textual edit each, applied to a scratch copy (see selftest.py).
